@@ -48,7 +48,13 @@ struct Outcome {
     note: String,
 }
 
-async fn run(core: &'static Core, proto: VProto, so: &[usize], si: &[usize], first_out: bool, slow_reader: bool) -> Result<Outcome, String> {
+/// One scenario, all four ends concurrent. `unit` scales the scripts' chunk sizes; `late_reader`
+/// makes the destination (or, for downloads, the client) start reading only after the other
+/// direction's data has been written, so that the relay sees real back-pressure while traffic
+/// flows the other way.
+async fn run(core: &'static Core, proto: VProto, so: &[usize], si: &[usize], first_out: bool, slow_reader: bool, late_reader: bool, close_after_all: bool) -> Result<Outcome, String> {
+    use std::sync::Arc;
+    use tokio::sync::Notify;
     let listener = TcpListener::bind("127.0.0.1:0").await.map_err(|e| e.to_string())?;
     let port = listener.local_addr().unwrap().port();
     let (client, server) = tokio::io::duplex(1 << 16);
@@ -56,12 +62,13 @@ async fn run(core: &'static Core, proto: VProto, so: &[usize], si: &[usize], fir
         let _ = serve_tunnel(core, proto, server, peer_addr(), "localhost".into(), None).await;
     });
     let target = format!("127.0.0.1:{}", port);
-    let to = Duration::from_secs(10);
-    let mut out = Outcome { peer_got: vec![], peer_eof: false, client_got: vec![], client_eof: false, note: String::new() };
+    let to = Duration::from_secs(20);
 
     // --- establish
-    enum C { H1(tokio::io::DuplexStream), H2(h2::SendStream<Bytes>, h2::RecvStream, tokio::task::JoinHandle<()>) }
-    let mut c = match proto {
+    enum CW { H1(tokio::io::WriteHalf<tokio::io::DuplexStream>), H2(h2::SendStream<Bytes>) }
+    enum CR { H1(tokio::io::ReadHalf<tokio::io::DuplexStream>), H2(h2::RecvStream) }
+    let mut conn_task = None;
+    let (mut cw, mut cr) = match proto {
         VProto::Http1 => {
             let mut io = client;
             h1_send(&mut io, &h1_request("CONNECT", &target, None, &[])).await.map_err(|e| e.to_string())?;
@@ -73,141 +80,172 @@ async fn run(core: &'static Core, proto: VProto, so: &[usize], si: &[usize], fir
                 buf.push(tmp[0]);
             }
             if parse_h1_heads(&buf).0.first().map(|h| h.status) != Some(200) { return Err("CONNECT not answered 200".into()); }
-            C::H1(io)
+            let (r, w) = tokio::io::split(io);
+            (CW::H1(w), CR::H1(r))
         }
         VProto::Http2 => {
             let (mut send, conn) = tokio::time::timeout(to, h2::client::handshake(client)).await.map_err(|_| "h2 handshake")?.map_err(|e| e.to_string())?;
-            let ct = tokio::spawn(async move { let _ = conn.await; });
+            conn_task = Some(tokio::spawn(async move { let _ = conn.await; }));
             let r = http::Request::builder().method("CONNECT").uri(target.as_str()).body(()).unwrap();
             std::future::poll_fn(|cx| send.poll_ready(cx)).await.map_err(|e| e.to_string())?;
             let (resp, stream) = send.send_request(r, false).map_err(|e| e.to_string())?;
             let resp = tokio::time::timeout(to, resp).await.map_err(|_| "no CONNECT response")?.map_err(|e| e.to_string())?;
             if resp.status() != 200 { return Err("CONNECT not answered 200".into()); }
-            C::H2(stream, resp.into_body(), ct)
+            (CW::H2(stream), CR::H2(resp.into_body()))
         }
     };
-    let (mut peer, _) = tokio::time::timeout(to, listener.accept()).await.map_err(|_| "destination saw no connection")?.map_err(|e| e.to_string())?;
+    let (peer, _) = tokio::time::timeout(to, listener.accept()).await.map_err(|_| "destination saw no connection")?.map_err(|e| e.to_string())?;
+    let (mut pr, mut pw) = peer.into_split();
 
-    // --- helpers as closures are awkward with borrows: do it inline
-    let so_total: usize = so.iter().sum();
-    let si_total: usize = si.iter().sum();
-
-    // client sends all chunks but (if it finishes second) keeps the last one back until it has seen the peer's EOF
     // over HTTP/1.1 the endpoint can only express the destination's end of stream by closing the
     // connection, so the client cannot send after it: there the client sends everything up front
     let hold_client = !first_out && !so.is_empty() && matches!(proto, VProto::Http2);
     let hold_peer = first_out && !si.is_empty();
-    let mut sent_c = 0usize;
-    let n_c = if hold_client { so.len() - 1 } else { so.len() };
-    for &n in &so[..n_c] {
-        let data = payload(sent_c, n, 7);
-        sent_c += n;
-        match &mut c {
-            C::H1(io) => { io.write_all(&data).await.map_err(|e| format!("client write: {}", e))?; io.flush().await.ok(); }
-            C::H2(send, _, _) => {
-                let mut rest = Bytes::from(data);
-                while !rest.is_empty() {
-                    send.reserve_capacity(rest.len());
-                    let cap = tokio::time::timeout(to, std::future::poll_fn(|cx| send.poll_capacity(cx))).await.map_err(|_| "no h2 send capacity")?.ok_or("h2 stream closed while uploading")?.map_err(|e| e.to_string())?;
-                    let k = cap.min(rest.len());
-                    send.send_data(rest.split_to(k), false).map_err(|e| e.to_string())?;
+    let peer_eof_seen_by_client = Arc::new(Notify::new());
+    let client_eof_seen_by_peer = Arc::new(Notify::new());
+    let peer_wrote = Arc::new(Notify::new());
+    let peer_got_all = Arc::new(Notify::new());
+    let so_total: usize = so.iter().sum();
+    let client_wrote = Arc::new(Notify::new());
+
+    let so_v = so.to_vec();
+    let si_v = si.to_vec();
+
+    // client writer
+    let n1 = peer_eof_seen_by_client.clone();
+    let cw_done = client_wrote.clone();
+    let client_writer = tokio::spawn(async move {
+        let mut note = String::new();
+        let mut sent = 0usize;
+        let n_c = if hold_client { so_v.len() - 1 } else { so_v.len() };
+        async fn send_one(cw: &mut CW, data: Vec<u8>, to: Duration) -> Result<(), String> {
+            match cw {
+                CW::H1(io) => { tokio::time::timeout(to, io.write_all(&data)).await.map_err(|_| "client write blocked".to_string())?.map_err(|e| format!("client write: {}", e))?; let _ = io.flush().await; Ok(()) }
+                CW::H2(send) => {
+                    let mut rest = Bytes::from(data);
+                    while !rest.is_empty() {
+                        send.reserve_capacity(rest.len().min(1 << 16));
+                        let cap = tokio::time::timeout(to, std::future::poll_fn(|cx| send.poll_capacity(cx))).await.map_err(|_| "no h2 send capacity".to_string())?.ok_or("h2 stream closed while uploading")?.map_err(|e| e.to_string())?;
+                        let k = cap.min(rest.len());
+                        send.send_data(rest.split_to(k), false).map_err(|e| e.to_string())?;
+                    }
+                    Ok(())
                 }
             }
         }
-    }
-    let mut sent_p = 0usize;
-    let n_p = if hold_peer { si.len() - 1 } else { si.len() };
-    for &n in &si[..n_p] {
-        let data = payload(sent_p, n, 101);
-        sent_p += n;
-        peer.write_all(&data).await.map_err(|e| format!("peer write: {}", e))?;
-    }
-
-    // the side that finishes first half-closes now
-    if first_out {
-        match &mut c {
-            C::H1(io) => { io.shutdown().await.ok(); }
-            C::H2(send, _, _) => { send.send_data(Bytes::new(), true).map_err(|e| e.to_string())?; }
+        for &n in &so_v[..n_c] {
+            if let Err(e) = send_one(&mut cw, payload(sent, n, 7), to).await { note = e; break; }
+            sent += n;
         }
-    } else {
-        peer.shutdown().await.ok();
-    }
-
-    // reader tasks' work done inline with deadlines: first the side that must observe the EOF
-    async fn read_peer(peer: &mut tokio::net::TcpStream, got: &mut Vec<u8>, until_eof: bool, want: usize, to: Duration) -> bool {
-        let mut buf = [0u8; 4096];
-        loop {
-            if !until_eof && got.len() >= want { return false; }
-            match tokio::time::timeout(to, peer.read(&mut buf)).await {
-                Ok(Ok(0)) => return true,
-                Ok(Ok(n)) => got.extend_from_slice(&buf[..n]),
-                _ => return false,
+        cw_done.notify_one();
+        if !first_out {
+            // finish second: wait for the destination's end of stream first
+            let _ = tokio::time::timeout(to, n1.notified()).await;
+            if hold_client && note.is_empty() {
+                let n = *so_v.last().unwrap();
+                if let Err(e) = send_one(&mut cw, payload(sent, n, 7), to).await { note = format!("after the destination's EOF: {}", e); }
             }
         }
-    }
-    if first_out {
-        // the peer must receive everything and the EOF while it still has data to send
-        out.peer_eof = read_peer(&mut peer, &mut out.peer_got, true, so_total, to).await;
-        if hold_peer {
-            let n = *si.last().unwrap();
-            peer.write_all(&payload(sent_p, n, 101)).await.map_err(|e| format!("peer write after client EOF: {}", e))?;
+        match &mut cw {
+            CW::H1(io) => { let _ = io.shutdown().await; }
+            CW::H2(send) => { let _ = send.send_data(Bytes::new(), true); }
         }
-        peer.shutdown().await.ok();
-    }
-    // client reads
-    {
-        let deadline = to;
-        match &mut c {
-            C::H1(io) => {
-                let mut buf = [0u8; 4096];
+        (cw, note)
+    });
+
+    // destination writer
+    let n2 = client_eof_seen_by_peer.clone();
+    let pw_done = peer_wrote.clone();
+    let pga = peer_got_all.clone();
+    let peer_writer = tokio::spawn(async move {
+        let mut note = String::new();
+        let mut sent = 0usize;
+        let n_p = if hold_peer { si_v.len() - 1 } else { si_v.len() };
+        for &n in &si_v[..n_p] {
+            match tokio::time::timeout(to, pw.write_all(&payload(sent, n, 101))).await {
+                Ok(Ok(())) => sent += n,
+                Ok(Err(e)) => { note = format!("destination write: {}", e); break; }
+                Err(_) => { note = "destination write blocked".into(); break; }
+            }
+        }
+        pw_done.notify_one();
+        if first_out {
+            let _ = tokio::time::timeout(to, n2.notified()).await;
+            if hold_peer && note.is_empty() {
+                let n = *si_v.last().unwrap();
+                if let Err(e) = pw.write_all(&payload(sent, n, 101)).await { note = format!("destination write after the client's EOF: {}", e); }
+            }
+        }
+        if close_after_all {
+            // the destination ends its stream only once it has received everything (nothing in flight)
+            let _ = tokio::time::timeout(to, pga.notified()).await;
+        }
+        let _ = pw.shutdown().await;
+        (pw, note)
+    });
+
+    // destination reader (optionally late: only after its own side has written)
+    let n3 = client_eof_seen_by_peer.clone();
+    let pw_done2 = peer_wrote.clone();
+    let pga2 = peer_got_all.clone();
+    let peer_reader = tokio::spawn(async move {
+        if late_reader { let _ = tokio::time::timeout(Duration::from_secs(5), pw_done2.notified()).await; tokio::time::sleep(Duration::from_millis(150)).await; }
+        let mut got = Vec::new();
+        let mut eof = false;
+        let mut buf = vec![0u8; 16384];
+        loop {
+            match tokio::time::timeout(to, pr.read(&mut buf)).await {
+                Ok(Ok(0)) => { eof = true; break; }
+                Ok(Ok(n)) => { got.extend_from_slice(&buf[..n]); if got.len() >= so_total { pga2.notify_one(); } }
+                _ => break,
+            }
+        }
+        pga2.notify_one();
+        n3.notify_one();
+        (got, eof)
+    });
+
+    // client reader
+    let n4 = peer_eof_seen_by_client.clone();
+    let cw_done2 = client_wrote.clone();
+    let client_reader = tokio::spawn(async move {
+        if late_reader { let _ = tokio::time::timeout(Duration::from_secs(5), cw_done2.notified()).await; tokio::time::sleep(Duration::from_millis(150)).await; }
+        let mut got = Vec::new();
+        let mut eof = false;
+        let mut note = String::new();
+        match &mut cr {
+            CR::H1(io) => {
+                let mut buf = vec![0u8; 16384];
                 loop {
                     if slow_reader { tokio::time::sleep(Duration::from_millis(1)).await; }
-                    match tokio::time::timeout(deadline, io.read(&mut buf)).await {
-                        Ok(Ok(0)) => { out.client_eof = true; break; }
-                        Ok(Ok(n)) => out.client_got.extend_from_slice(&buf[..n]),
-                        Ok(Err(_)) => break,
-                        Err(_) => break,
+                    match tokio::time::timeout(to, io.read(&mut buf)).await {
+                        Ok(Ok(0)) => { eof = true; break; }
+                        Ok(Ok(n)) => got.extend_from_slice(&buf[..n]),
+                        _ => break,
                     }
-                    if !first_out && !out.client_eof && out.client_got.len() >= si_total && hold_client { /* keep reading for EOF */ }
                 }
             }
-            C::H2(_, recv, _) => loop {
+            CR::H2(recv) => loop {
                 if slow_reader { tokio::time::sleep(Duration::from_millis(1)).await; }
-                match tokio::time::timeout(deadline, recv.data()).await {
-                    Ok(None) => { out.client_eof = true; break; }
-                    Ok(Some(Ok(ch))) => { out.client_got.extend_from_slice(&ch); let _ = recv.flow_control().release_capacity(ch.len()); }
-                    Ok(Some(Err(e))) => { out.note = format!("client stream error: {}", e); break; }
+                match tokio::time::timeout(to, recv.data()).await {
+                    Ok(None) => { eof = true; break; }
+                    Ok(Some(Ok(ch))) => { got.extend_from_slice(&ch); let _ = recv.flow_control().release_capacity(ch.len()); }
+                    Ok(Some(Err(e))) => { note = format!("client stream error: {}", e); break; }
                     Err(_) => break,
                 }
             },
         }
-    }
-    if !first_out {
-        // the client saw the peer's EOF (or not); now it sends its last chunk and finishes
-        if hold_client {
-            let n = *so.last().unwrap();
-            let data = payload(sent_c, n, 7);
-            match &mut c {
-                C::H1(io) => { if let Err(e) = io.write_all(&data).await { out.note = format!("client write after peer EOF: {}", e); } io.flush().await.ok(); }
-                C::H2(send, _, _) => {
-                    let mut rest = Bytes::from(data);
-                    while !rest.is_empty() {
-                        send.reserve_capacity(rest.len());
-                        match tokio::time::timeout(to, std::future::poll_fn(|cx| send.poll_capacity(cx))).await {
-                            Ok(Some(Ok(cap))) => { let k = cap.min(rest.len()); if let Err(e) = send.send_data(rest.split_to(k), false) { out.note = format!("client send after peer EOF: {}", e); break; } }
-                            _ => { out.note = "client cannot send after the peer's EOF (stream closed)".into(); break; }
-                        }
-                    }
-                }
-            }
-        }
-        match &mut c {
-            C::H1(io) => { io.shutdown().await.ok(); }
-            C::H2(send, _, _) => { let _ = send.send_data(Bytes::new(), true); }
-        }
-        out.peer_eof = read_peer(&mut peer, &mut out.peer_got, true, so_total, to).await;
-    }
-    if let C::H2(_, _, ct) = c { ct.abort(); }
+        n4.notify_one();
+        (got, eof, note, cr)
+    });
+
+    let (cwr, pwr, prr, crr) = tokio::join!(client_writer, peer_writer, peer_reader, client_reader);
+    let mut out = Outcome { peer_got: vec![], peer_eof: false, client_got: vec![], client_eof: false, note: String::new() };
+    if let Ok((got, eof)) = prr { out.peer_got = got; out.peer_eof = eof; }
+    if let Ok((got, eof, note, _cr)) = crr { out.client_got = got; out.client_eof = eof; out.note = note; }
+    if let Ok((_cw, note)) = cwr { if !note.is_empty() { out.note = format!("{} {}", out.note, note); } }
+    if let Ok((_pw, note)) = pwr { if !note.is_empty() { out.note = format!("{} {}", out.note, note); } }
+    if let Some(ct) = conn_task { ct.abort(); }
     tunnel.abort();
     let _ = tunnel.await;
     Ok(out)
@@ -226,25 +264,33 @@ fn main() {
     for v in read_tagged(&vectors, "E2E") {
         let key = format!("{}|{}|{}", v["so"], v["si"], v["first"]);
         if !seen.insert(key.clone()) { continue; }
-        let so = chunks(&v["so"]);
-        let si = chunks(&v["si"]);
+        let so0 = chunks(&v["so"]);
+        let si0 = chunks(&v["si"]);
         let first_out = v["first"] == "out";
         for proto in [VProto::Http1, VProto::Http2] {
             // HTTP/1.1 over TLS carries no half-close from the client: only scenarios where the
             // destination has nothing left to send when the client finishes first
-            if proto == VProto::Http1 && first_out && !si.is_empty() { continue; }
-            for slow in [false, true] {
+            if proto == VProto::Http1 && first_out && !si0.is_empty() { continue; }
+            // (slow client reader, late readers + large chunks = back-pressure with traffic both ways)
+            for (slow, late, scale) in [(false, false, 1usize), (true, false, 1), (false, true, 150)] {
+                let so: Vec<usize> = so0.iter().map(|x| x * scale).collect();
+                let si: Vec<usize> = si0.iter().map(|x| x * scale).collect();
+                if late && (so.is_empty() || si.is_empty()) { continue; }
+                // HTTP/1.1 + back-pressure: the destination closes only after everything arrived, so the
+                // scenario does not depend on half-close support
+                let close_after_all = late && proto == VProto::Http1;
+                if close_after_all && first_out { continue; }
                 let core: &'static Core = Box::leak(Box::new(make_core(&CoreOpts { allow_private: true, ..Default::default() })));
                 let pname = if proto == VProto::Http1 { "h1" } else { "h2" };
-                let desc = json!({"proto": pname, "so": v["so"], "si": v["si"], "first": v["first"], "slow_reader": slow, "unit": UNIT});
+                let desc = json!({"proto": pname, "so": v["so"], "si": v["si"], "first": v["first"], "slow_reader": slow, "late_readers": late, "unit": UNIT * scale});
                 rep.eval();
-                if !so.is_empty() || !si.is_empty() { rep.nontrivial(format!("{}|{}|{}", key, pname, slow)); }
+                if !so.is_empty() || !si.is_empty() { rep.nontrivial(format!("{}|{}|{}|{}", key, pname, slow, late)); }
                 if rep.evaluations % 37 == 1 { rep.sample(desc.clone()); }
                 let d2 = desc.clone();
                 watchdog::enter(move || ("pipe-e2e:hang".into(), "scenario did not finish".into(), d2));
-                let r = rt.block_on(run(core, proto, &so, &si, first_out, slow));
+                let r = rt.block_on(run(core, proto, &so, &si, first_out, slow, late, close_after_all));
                 watchdog::leave();
-                let order = if first_out { "client-first" } else { "peer-first" };
+                let order = if close_after_all { "closed-after-delivery" } else if first_out { "client-first" } else { "peer-first" };
                 match r {
                     Err(e) => rep.violation_with(format!("pipe-e2e:{}:{}:setup", pname, order), e, || desc.clone()),
                     Ok(o) => {
@@ -257,7 +303,7 @@ fn main() {
                         if !o.client_eof { problems.push("client did not see a clean end of stream".into()); }
                         if !problems.is_empty() {
                             let class = if problems.iter().any(|p| p.contains("bytes delivered") || p.contains("differs")) { "data" } else { "end" };
-                            rep.violation_with(format!("pipe-e2e:{}:{}:{}", pname, order, class), problems.join("; "),
+                            rep.violation_with(format!("pipe-e2e:{}:{}:{}{}", pname, order, class, if late { ":backpressure" } else { "" }), problems.join("; "),
                                 || json!({"scenario": desc, "problems": problems, "note": o.note, "peer_got": o.peer_got.len(), "client_got": o.client_got.len(), "peer_eof": o.peer_eof, "client_eof": o.client_eof}));
                         }
                     }
